@@ -168,6 +168,9 @@ Proof.
     injection H as <-. cbn. apply bs_app; [eapply Hf; exact E|apply IH; reflexivity].
 Qed.
 
+Lemma OReply_inj a b : OReply a = OReply b -> a = b.
+Proof. congruence. Qed.
+
 (* ---------------- the theorem ---------------- *)
 Lemma db_exec_bytes fx e d c :
   dev_bytes d -> cmd_bytes c ->
@@ -180,7 +183,7 @@ Proof.
   - split; [exact Hd|]. intros r H. injection H as <-. lit_bytes.
   - split; [exact Hd|]. intros r H. injection H as <-. lit_bytes.
   - (* SETALLMODE *)
-    unfold h_set_allmode. case_all; split_toks; cbn [fst snd R]; (split; [|intros r Hr; injection Hr as <-]);
+    unfold h_set_allmode. case_all; split_toks; cbn [fst snd R]; (split; [|intros r Hr; apply OReply_inj in Hr; subst]);
       try assumption; try exact Hd; try lit_bytes.
     + unfold dev_bytes, with_boards. cbn [boards]. rewrite Forall_forall. intros b Hb.
       apply in_map_iff in Hb as ([b1 l1] & <- & Hb). apply in_map_iff in Hb as ([i b0] & Hb & Hin).
@@ -189,11 +192,11 @@ Proof.
     + apply bs_app; [apply drop_last_bs|apply crlf_bs]. rewrite map_map. apply concat_map_bs.
       intros [i b0] Hin. unfold set_allmode_line. destruct (b_status b0 =? 1); cbn [snd]; sb.
   - (* MODE *)
-    unfold h_set_mode. case_all; split_toks; cbn [fst snd R]; (split; [|intros r Hr; try discriminate Hr; injection Hr as <-]);
+    unfold h_set_mode. case_all; split_toks; cbn [fst snd R]; (split; [|intros r Hr; try discriminate Hr; apply OReply_inj in Hr; subst]);
       try assumption; try exact Hd; try lit_bytes; try (unfold err_1005, err_1007; sb).
     apply board_bytes_upd; [assumption|]. intros b0 Hb0. bb.
   - (* STOREALLMODE *)
-    unfold h_store_allmode. case_all; split_toks; cbn [fst snd R]; (split; [|intros r Hr; try discriminate Hr; injection Hr as <-]);
+    unfold h_store_allmode. case_all; split_toks; cbn [fst snd R]; (split; [|intros r Hr; try discriminate Hr; apply OReply_inj in Hr; subst]);
       try assumption; try exact Hd; try lit_bytes.
     unfold err_1005.
     assert (Hu : Forall bs (unreachable_list d)).
@@ -204,15 +207,15 @@ Proof.
       rewrite H in Hu; assert (Hj : bs (join [SP] x)) by (apply join_bs; [lit_bytes|exact Hu]) end.
     apply bs_app; [lit_bytes|]. apply bs_app; [exact Hj|]. sb.
   - (* DELETEFILE *)
-    unfold h_delete_file. case_all; split_toks; cbn [fst snd R]; (split; [|intros r Hr; try discriminate Hr; injection Hr as <-]);
+    unfold h_delete_file. case_all; split_toks; cbn [fst snd R]; (split; [|intros r Hr; try discriminate Hr; apply OReply_inj in Hr; subst]);
       try assumption; try exact Hd; try lit_bytes.
   - (* GETSTATUS *)
     unfold h_get_status, with_board. case_all; split_toks; cbn [fst snd R];
-      (split; [|intros r Hr; try discriminate Hr; injection Hr as <-]); try assumption; try exact Hd; try lit_bytes;
+      (split; [|intros r Hr; try discriminate Hr; apply OReply_inj in Hr; subst]); try assumption; try exact Hd; try lit_bytes;
       try (unfold err_1005, err_1007; sb).
   - (* SETATT SETAMP SETEQ SETBPF *)
     unfold h_set_reg. case_all; split_toks; cbn [fst snd R];
-      (split; [|intros r0 Hr; try discriminate Hr; injection Hr as <-]); try assumption; try exact Hd; try lit_bytes;
+      (split; [|intros r0 Hr; try discriminate Hr; apply OReply_inj in Hr; subst]); try assumption; try exact Hd; try lit_bytes;
       try (unfold err_1005, err_1007, err_1010, err_1012, err_1013, err_1014; sb);
       try (apply board_bytes_upd; try assumption; try exact Hd; intros b0 Hb0; bb).
     all: match goal with Hn : nth_opt _ (boards _) = Some ?b1 |- _ =>
@@ -221,59 +224,64 @@ Proof.
            destruct Hb1 as (_ & ? & ? & ? & _) end.
     all: apply cval_set_nth; [assumption|cbn; assumption].
   - (* ReadALLDIAG *)
-    unfold h_all_diag. case_all; split_toks; cbn [fst snd R]; (split; [|intros r Hr; injection Hr as <-]);
+    unfold h_all_diag. case_all; split_toks; cbn [fst snd R]; (split; [|intros r Hr; apply OReply_inj in Hr; subst]);
       try assumption; try exact Hd; try lit_bytes.
     apply bs_app; [do 2 apply drop_last_bs|apply crlf_bs]. apply concat_map_bs. intros [i b0] Hin.
     specialize (Hbd i b0 Hin). pose proof (volts_bs b0 Hbd). destruct Hbd as (_ & _ & _ & _ & _ & _ & Ht0 & _).
     unfold all_diag_part. case_all; sb.
   - (* ReadDIAG *)
     unfold h_diag. case_all; split_toks; cbn [fst snd R];
-      (split; [|intros r Hr; try discriminate Hr; injection Hr as <-]); try assumption; try exact Hd; try lit_bytes;
+      (split; [|intros r Hr; try discriminate Hr; apply OReply_inj in Hr; subst]); try assumption; try exact Hd; try lit_bytes;
       try (unfold err_1005, err_1007; sb);
       match goal with Hn : nth_opt _ (boards d) = Some ?b0 |- _ =>
         assert (Hb0 : board_bytes b0) by (eapply nth_opt_Forall; eassumption);
         pose proof (volts_bs b0 Hb0); destruct Hb0 as (_ & _ & _ & _ & ? & ? & ? & _) end; sb.
   - (* SETSTATUS *)
     unfold h_set_status. case_all; split_toks; cbn [fst snd R];
-      (split; [|intros r Hr; try discriminate Hr; injection Hr as <-]); try assumption; try exact Hd; try lit_bytes;
+      (split; [|intros r Hr; try discriminate Hr; apply OReply_inj in Hr; subst]); try assumption; try exact Hd; try lit_bytes;
       try (unfold err_1007; sb).
     apply board_bytes_upd; [assumption|]. intros b0 Hb0. bb.
   - (* GETCOMP *)
     unfold h_get_comp, with_board. case_all; split_toks; cbn [fst snd R];
-      (split; [|intros r Hr; try discriminate Hr; injection Hr as <-]); try assumption; try exact Hd; try lit_bytes;
+      (split; [|intros r Hr; try discriminate Hr; apply OReply_inj in Hr; subst]); try assumption; try exact Hd; try lit_bytes;
       try (unfold err_1005, err_1007; sb).
-    match goal with Hn : nth_opt _ (boards d) = Some ?b0 |- _ =>
-      assert (Hb0 : board_bytes b0) by (eapply nth_opt_Forall; eassumption);
-      destruct Hb0 as (_ & Ha & He & Hp & _) end.
-    pose proof (cvals_bs _ Ha); pose proof (cvals_bs _ He); pose proof (cvals_bs _ Hp); sb.
-    all: apply cstr_bs; match goal with Hin : In ?x ?l, Hf : Forall cval_ok ?l |- _ => exact (proj1 (Forall_forall _ _) Hf x Hin) end.
+    all: match goal with Hn : nth_opt _ (boards _) = Some ?b0 |- _ =>
+           let Hb0 := fresh "Hb0" in
+           assert (Hb0 : board_bytes b0) by (eapply nth_opt_Forall; eassumption);
+           destruct Hb0 as (_ & ? & ? & ? & _) end.
+    all: sb.
+    all: apply cstr_bs; repeat match goal with Hf : Forall cval_ok _ |- _ => rewrite Forall_forall in Hf end; auto.
   - (* GETCFG *)
-    unfold h_get_cfg. case_all; split_toks; cbn [fst snd R]; (split; [|intros r Hr; injection Hr as <-]);
+    unfold h_get_cfg. case_all; split_toks; cbn [fst snd R]; (split; [|intros r Hr; apply OReply_inj in Hr; subst]);
       try assumption; try exact Hd; try lit_bytes.
-    apply bs_app; [do 2 apply drop_last_bs|apply crlf_bs]. apply bs_app; [lit_bytes|]. apply concat_map_bs.
-    intros [i b0] Hin. specialize (Hbd i b0 Hin). destruct Hbd as (Hcfg & _). unfold cfg_part. case_all; sb.
+    apply bs_app; [do 2 apply drop_last_bs|apply crlf_bs]. apply bs_app; [lit_bytes|]. apply bs_app; [lit_bytes|].
+    apply concat_map_bs. intros [i b0] Hin. specialize (Hbd i b0 Hin). destruct Hbd as (Hcfg & _). unfold cfg_part. case_all; sb.
   - (* GETFIRM *)
     unfold h_get_firm, with_board. case_all; split_toks; cbn [fst snd R];
-      (split; [|intros r Hr; try discriminate Hr; injection Hr as <-]); try assumption; try exact Hd; try lit_bytes;
+      (split; [|intros r Hr; try discriminate Hr; apply OReply_inj in Hr; subst]); try assumption; try exact Hd; try lit_bytes;
       try (unfold err_1005, err_1007; sb).
     match goal with Hn : nth_opt _ (boards d) = Some ?b0 |- _ =>
       assert (Hb0 : board_bytes b0) by (eapply nth_opt_Forall; eassumption);
       destruct Hb0 as (_ & _ & _ & _ & _ & _ & _ & Hf) end. sb.
   - (* SETDBE* *)
-    unfold h_set_dbe. case_all; split_toks; cbn [fst snd R];
-      (split; [|intros r0 Hr; try discriminate Hr; injection Hr as <-]); try assumption; try exact Hd; try lit_bytes.
+    destruct r; unfold h_set_dbe; case_all; split_toks; cbn [fst snd R];
+      (split; [|intros r0 Hr; try discriminate Hr; apply OReply_inj in Hr; subst]); try assumption; try exact Hd; try lit_bytes.
     all: match goal with
-         | H : fold_lines ?one d _ = Some (_, _) |- _ =>
+         | Hd0 : dev_bytes ?d0, H : fold_lines ?one ?d0 _ = Some (_, _) |- _ =>
              let HH := fresh "HH" in
-             assert (HH : forall d0 t0 d1 l1, dev_bytes d0 -> one d0 t0 = Some (d1, l1) -> bs l1 /\ dev_bytes d1);
-             [ intros d0 t0 d1 l1 Hd0 H1;
-               first [ eapply set_dbeatt_one_bs; eassumption
-                     | eapply set_dbe01_one_bs; eassumption
-                     | (destruct r; first [ eapply set_dbeatt_one_bs; eassumption | eapply set_dbe01_one_bs; eassumption ]) ]
-             | destruct (fold_lines_bs one HH _ _ _ _ Hd H) as [Hl Hd'] ]
-         end; try assumption; try exact Hd; sb.
+             assert (HH : forall d1 t1 d2 l2, dev_bytes d1 -> one d1 t1 = Some (d2, l2) -> bs l2 /\ dev_bytes d2);
+             [ intros ? ? ? ? ? ?;
+               match goal with
+               | Hq : set_dbeatt_one ?n ?v ?f ?dd ?tt = Some _ |- _ =>
+                   apply (set_dbeatt_one_bs n v f dd tt _ _); assumption
+               | Hq : set_dbe01_one ?rr ?n ?f ?dd ?tt = Some _ |- _ =>
+                   apply (set_dbe01_one_bs rr n f dd tt _ _); assumption
+               end
+             | let Hl := fresh "Hl" in let Hd' := fresh "Hd'" in
+               destruct (fold_lines_bs one HH _ _ _ _ Hd0 H) as [Hl Hd'] ]
+         end; try assumption; sb.
   - (* GETDBE* *)
-    unfold h_get_dbe. case_all; split_toks; cbn [fst snd R]; (split; [|intros r0 Hr; try discriminate Hr; injection Hr as <-]);
+    unfold h_get_dbe. case_all; split_toks; cbn [fst snd R]; (split; [|intros r0 Hr; try discriminate Hr; apply OReply_inj in Hr; subst]);
       try assumption; try exact Hd; try lit_bytes.
     apply bs_app; [apply drop_last_bs|apply crlf_bs].
     match goal with H : all_some _ = Some _ |- _ => eapply all_some_bs; [|exact H] end.
@@ -289,9 +297,9 @@ Lemma strip_bs l : bs l -> bs (strip l).
 Proof. intros H. unfold strip, rstrip. apply rev_bs, lstrip_bs, rev_bs, lstrip_bs. exact H. Qed.
 Lemma split_bs sep l : bs l -> Forall bs (split_on sep l).
 Proof.
-  induction 1 as [|x l Hx Hl IH]; cbn; [repeat constructor|].
+  induction 1 as [|x l Hx Hl IH]; cbn; [constructor; constructor|].
   destruct (x =? sep); [constructor; [constructor|exact IH]|].
-  destruct (split_on sep l) as [|h t]; [repeat constructor; assumption|].
+  destruct (split_on sep l) as [|h t]; [constructor; [constructor; [exact Hx|constructor]|constructor]|].
   inversion IH; subst. constructor; [constructor; assumption|assumption].
 Qed.
 
